@@ -87,3 +87,40 @@ Proof.
   apply (f_equal2 (@app Z)); [apply of_to_nat; apply nn_trie_image|].
   destruct iv; [|reflexivity]. apply of_to_nat. apply nn_strings. exact Hw.
 Qed.
+
+(* the writer description of the model file is well-formed ... *)
+Lemma trie_written_wf : forall (array : bool) cfg pm n t pz words vocab1 search1,
+  (2 <= n <= max_order)%nat ->
+  length vocab1 = length (sorted_vocab_bytes words) -> length search1 = length (trie_image array cfg n t pz) ->
+  wf_written (trie_written array cfg pm n t pz words) vocab1 search1.
+Proof.
+  intros array cfg pm n t pz words vocab1 search1 Hn Hv Hs.
+  unfold wf_written, trie_written. cbn [w_order w_counts w_model_type w_search_version w_vocab w_search].
+  split; [exact Hn|]. split; [rewrite map_length, flat_map_bytes8_length; unfold trie_counts; rewrite map_length, seq_length; reflexivity|].
+  split; [unfold fits32; destruct array; cbn; lia|]. split; [unfold fits32; cbn; lia|].
+  rewrite !map_length. split; assumption.
+Qed.
+
+(* ... so the loader of the written type accepts the model's file and finds the model's vocabulary region and the model's search
+   structure exactly where it looks for them (C04_write_then_load instantiated with the file model) *)
+Theorem model_file_loads_back :
+  forall pm_ok body_size words_ok (array : bool) cfg pm n t pz words (iv : bool) vocab1 search1 wm lcfg,
+  let w := trie_written array cfg pm n t pz words in
+  (2 <= n <= max_order)%nat ->
+  length vocab1 = length (sorted_vocab_bytes words) -> length search1 = length (trie_image array cfg n t pz) ->
+  pm_ok [w_p0 w; w_p1 w; w_p2 w; w_p3 w] = true ->
+  l_model_type lcfg = w_model_type w -> l_search_version lcfg = w_search_version w ->
+  (l_enumerate lcfg = true -> iv = true) ->
+  body_size lcfg (final_image wm iv (contents_of w iv vocab1 search1)) = (length (w_vocab w) + w_pad w + length (w_search w))%nat ->
+  (iv = true -> l_enumerate lcfg = true -> words_ok (w_counts w) (w_words w) = true) ->
+  load pm_ok body_size words_ok lcfg (final_image wm iv (contents_of w iv vocab1 search1))
+    = Some (body_of w iv, if iv && l_enumerate lcfg then Some (w_words w) else None) /\
+  firstn (length (w_vocab w)) (skipn (header_size n) (body_of w iv)) = map Z.to_nat (sorted_vocab_bytes words) /\
+  firstn (length (w_search w)) (skipn (header_size n + length (w_vocab w) + 0) (body_of w iv)) = map Z.to_nat (trie_image array cfg n t pz).
+Proof.
+  intros pm_ok body_size words_ok array cfg pm n t pz words iv vocab1 search1 wm lcfg w Hn Hv Hs Hpm Ht Hsv He Hb Hw.
+  pose proof (trie_written_wf array cfg pm n t pz words vocab1 search1 Hn Hv Hs) as Hwf. fold w in Hwf.
+  destruct (write_then_load pm_ok body_size words_ok w iv vocab1 search1 Hwf Hpm wm lcfg Ht Hsv He Hb
+              ltac:(intros _; reflexivity) Hw) as [L [V [S _]]].
+  split; [exact L|]. split; [exact V|exact S].
+Qed.
